@@ -59,6 +59,11 @@ def files_worker(job):
                 with ghelib.quiet():
                     m = ghelib.build_manager(cfg)
                     m.find_design()
+                    if cfg.get("hourly_after"):
+                        # the workflow design.py recommends: size with the hybrid time step, then validate hourly
+                        from ghedesigner.enums import TimestepType
+                        m._search.ghe.simulate(method=TimestepType.HOURLY)
+                        rec["hourly_after"] = True
                     m.prepare_results("p", "n", "a", "i")
                     d = base / f"d{k}"
                     suffix = "" if k % 2 == 0 else f"_run{k}"
@@ -96,7 +101,7 @@ def file_jobs(rng, tier):
         return {"phys": phys, "pipe": "SINGLEUTUBE", "loads": loads, "months": months, "max_eft": 35.0, "min_eft": 5.0, "max_h": 135.0,
                 "min_h": 60.0, "flow": phys["flow"], "geom": geom}
     n = 1 if tier == "quick" else 4
-    return [[cfg("NEARSQUARE", rng.choice([0.02, 0.05]), 12), cfg("RECTANGLE", rng.choice([0.08, 0.15]), 24), cfg("NEARSQUARE", 0.1, 12)] for _ in range(n)]
+    return [[cfg("NEARSQUARE", rng.choice([0.02, 0.05]), 12), {**cfg("RECTANGLE", rng.choice([0.08, 0.15]), 24), "hourly_after": True}, cfg("NEARSQUARE", 0.1, 12)] for _ in range(n)]
 
 
 def run(ctx: core.Ctx):
@@ -190,8 +195,11 @@ def run(ctx: core.Ctx):
     for k in range(3):
         loads = [rng.uniform(-5e4, 5e4) for _ in range(8760)]
         coords = [(rng.uniform(0, 50), rng.uniform(0, 50)) for _ in range(rng.randint(1, 40))]
+        # (the load year of the hybrid load object is 2019 by default; a leap load year must not change the labels:
+        # the property fixes the non-leap calendar)
         designs.append((loads, coords, types.SimpleNamespace(ghe=types.SimpleNamespace(
-            hourly_extraction_ground_loads=loads, gFunction=types.SimpleNamespace(bore_locations=coords)))))
+            hourly_extraction_ground_loads=loads, gFunction=types.SimpleNamespace(bore_locations=coords),
+            hybrid_load=types.SimpleNamespace(years=[[2019], [2020], [2024, 2025]][k], start_month=1, end_month=12)))))
     order = [0, 1, 2, 0, 1]
     for call_no, k in enumerate(order):
         loads, coords, design = designs[k]
